@@ -597,9 +597,10 @@ Proof. destruct a, b; cbn; split; intro H; try reflexivity; try discriminate. Qe
 
 Lemma sid_eqb_eq a b : sid_eqb a b = true <-> a = b.
 Proof.
-  destruct a as [n d u k f], b as [n' d' u' k' f']. unfold sid_eqb. cbn [si_name si_desc si_unit si_kind si_float].
+  destruct a as [n d u k f s1 s2 s3], b as [n' d' u' k' f' s1' s2' s3']. unfold sid_eqb.
+  cbn [si_name si_desc si_unit si_kind si_float si_sname si_sver si_surl].
   rewrite !andb_true_iff, !bytes_eqb_eq, ikind_eqb_eq, Bool.eqb_true_iff.
-  split; [intros [[[[-> ->] ->] ->] ->]; reflexivity | intro H; inversion H; auto 10].
+  split; [intros [[[[[[[-> ->] ->] ->] ->] ->] ->] ->]; reflexivity | intro H; inversion H; auto 20].
 Qed.
 
 Lemma sid_eqb_refl a : sid_eqb a a = true.
@@ -1174,4 +1175,38 @@ Proof.
   destruct (expected_points_placed c w) as [ND P]. split.
   - eapply Permutation_NoDup; [apply Permutation_map, H | exact ND].
   - intro k. rewrite <- P. symmetry. now apply lookup_perm.
+Qed.
+
+(** * Order-free clauses hold for every history, hence for every interleaving of concurrent recorders *)
+Lemma Forall2_and {A B} (P Q : A -> B -> Prop) l1 l2 :
+  Forall2 P l1 l2 -> Forall2 Q l1 l2 -> Forall2 (fun a b => P a b /\ Q a b) l1 l2.
+Proof. intros F. induction F; intro G; inversion G; subst; constructor; auto. Qed.
+
+Lemma Forall2_Forall_l {A B} (P : A -> Prop) (Q : A -> B -> Prop) l1 l2 :
+  Forall P l1 -> Forall2 Q l1 l2 -> Forall2 (fun a b => P a /\ Q a b) l1 l2.
+Proof. intros F G. induction G; inversion F; subst; constructor; auto. Qed.
+
+Lemma stream_at_most_any c h : Forall (fun pts => at_most (s_limit c) pts) (s_run c h s_empty).
+Proof.
+  destruct (N.le_gt_cases 1 (s_limit c)) as [H|H]; [now apply stream_at_most|].
+  apply Forall_forall. intros pts _ HL. lia.
+Qed.
+
+Lemma stream_order_free c h : is_presum_delta c = false ->
+  Forall2 (fun pts w => order_free c w pts) (s_run c h s_empty) (windows c h).
+Proof.
+  intro Hp. pose proof (stream_placed c h Hp) as FP.
+  assert (FS : Forall2 (fun pts w => sums_values (s_kind c) = true -> sum_conserved w pts) (s_run c h s_empty) (windows c h)).
+  { destruct (sums_values (s_kind c)) eqn:E.
+    - eapply Forall2_impl; [|apply stream_sum_conserved; assumption]. auto.
+    - eapply Forall2_impl; [|exact FP]. intros; discriminate. }
+  assert (FC : Forall2 (fun pts w => counts_values (s_kind c) = true -> count_conserved w pts) (s_run c h s_empty) (windows c h)).
+  { destruct (counts_values (s_kind c)) eqn:E.
+    - eapply Forall2_impl; [|apply stream_count_conserved; assumption]. auto.
+    - eapply Forall2_impl; [|exact FP]. intros; discriminate. }
+  pose proof (Forall2_Forall_l _ _ _ _ (stream_at_most_any c h) (Forall2_and _ _ _ _ FP (Forall2_and _ _ _ _ FS FC))) as F.
+  eapply Forall2_impl; [|exact F]. cbn beta. intros pts w [AM [PL [S C]]].
+  destruct (placed_keep_identity c w pts PL) as [_ [K _]].
+  split; [apply PL|]. split; [exact AM|]. split; [|split; assumption].
+  intros k Hk. destruct (K k Hk) as [Hin|Ho]; [left; eapply kept_In; exact Hin | now right].
 Qed.
